@@ -228,7 +228,7 @@ class Column:
             if isinstance(elem, list):
                 for _elem in elem:
                     _type += f" {_elem.rstrip()}"
-            elif "ARRAY" in elem and elem != "ARRAY":
+            elif "ARRAY" in elem and elem != "ARRAY" and (elem.startswith("ARRAY") or "<" in elem):
                 _type += elem
             else:
                 _type += f" {elem}"
